@@ -257,6 +257,36 @@ class Engine:
             hit = (v,)
         return hit[0]
 
+    def scoped(self):
+        """Context manager: everything created inside (axioms, UF applications, trig pairs) is discarded."""
+        eng = self
+
+        class _Scope:
+            def __enter__(self_):
+                eng.solver.push()
+                self_.saved = (dict(eng.apps), dict(eng.trig), len(eng.safety), len(eng.np_exp_args), eng.model)
+                return eng
+
+            def __exit__(self_, *a):
+                eng.solver.pop()
+                eng.apps, eng.trig = self_.saved[0], self_.saved[1]
+                del eng.safety[self_.saved[2]:]
+                del eng.np_exp_args[self_.saved[3]:]
+                eng.model = self_.saved[4]
+                return False
+
+        return _Scope()
+
+    def pi(self):
+        """The real number pi as a symbol with tight rational bounds (np.pi is modelled as pi itself)."""
+        hit = self.apps.get(("PI",))
+        if hit is None:
+            p = z3.Real("PI")
+            self.axiom(z3.And(p > z3.RealVal(Fraction(3141592653589793, 10**15)), p < z3.RealVal(Fraction(3141592653589794, 10**15))))
+            self.apps[("PI",)] = (SR(p), ())
+            hit = self.apps[("PI",)]
+        return hit[0]
+
     def fresh(self, name, sort="R"):
         self.cnt += 1
         n = f"{name}#{self.cnt}"
@@ -493,6 +523,7 @@ def _ax_exp(eng, t, args, prev):
     for pt, (pa,) in prev:
         out.append(z3.Implies(a < pa, t < pt))
         out.append(z3.Implies(pa < a, pt < t))
+        out.append(z3.Implies(a == -pa, t * pt == 1))
     return out
 
 
@@ -912,7 +943,7 @@ class SR:
         if z3.is_rational_value(s):
             f = float(Fraction(s.numerator_as_long(), s.denominator_as_long()))
             return math.sqrt(f)
-        key = ("sqrt", self.e.get_id())
+        key = ("sqrt", s.get_id())
         eng = E()
         r = eng.apps.get(key)
         if r is None:
@@ -974,6 +1005,18 @@ def _trig(x):
         c = eng.fresh("cos")
         s = eng.fresh("sin")
         eng.axiom(c.e * c.e + s.e * s.e == 1)
+        a = x.e
+        eng.axiom(z3.Implies(a == 0, z3.And(c.e == 1, s.e == 0)))
+        if ("PI",) in eng.apps:
+            P = eng.apps[("PI",)][0].e
+            eng.axiom(z3.Implies(z3.And(a > 0, a < P), s.e > 0))
+            eng.axiom(z3.Implies(z3.And(a > P, a < 2 * P), s.e < 0))
+            for pc, ps, pa in eng.trig.values():
+                eng.axiom(z3.Implies(z3.Or(a == pa + P, a == pa - P), z3.And(c.e == -pc.e, s.e == -ps.e)))
+                eng.axiom(z3.Implies(z3.Or(a == -pa, a == 2 * P - pa), z3.And(c.e == pc.e, s.e == -ps.e)))
+                eng.axiom(z3.Implies(z3.Or(a == pa + 2 * P, a == pa - 2 * P), z3.And(c.e == pc.e, s.e == ps.e)))
+        for pc, ps, pa in eng.trig.values():
+            eng.axiom(z3.Implies(a == pa, z3.And(c.e == pc.e, s.e == ps.e)))
         eng.trig[key] = (c, s, x.e)
     return eng.trig[key][:2]
 
